@@ -16,6 +16,7 @@
 From Coq Require Import List NArith ZArith Bool.
 Require Import GV.Base.Res GV.Spec.Graph GV.Model.Filter GV.Spec.FilterSpec.
 Require Import GV.Proofs.FilterProofs GV.Proofs.FilterEdges GV.Proofs.FilterConv GV.Proofs.FilterParents.
+Require Import GV.Proofs.FilterTol.
 Import ListNotations.
 Local Open Scope N_scope.
 
@@ -179,6 +180,37 @@ Theorem parents_kept : forall rf (dbg : bool) (req : N -> bool) (units : list un
     exists u e par, occurs units u e par /\ x = sec u (e_off e) /\
       p = match par with Some pe => sec u (e_off pe) | None => root_off u end.
 Proof. exact filtered_parents. Qed.
+
+(* ------------------------------------------------------------------------------------------ *)
+(* Minimality under error tolerance.  With the attribute-by-attribute loop documented on ConvertUnit (an
+   attribute whose conversion fails is skipped), for EVERY forest - whatever its reference sites hold:
+   out-of-bounds unit-relative offsets, offsets of no DIE, dangling .debug_info offsets - the DIEs that come
+   out are exactly the reserved ones, i.e. (closure_any_policy) the least closed set: a malformed reference
+   neither adds a DIE nor removes one.  No hypothesis that the unfiltered conversion succeeds. *)
+Theorem tolerant_emits_reserved : forall rf (dbg : bool) (req : N -> bool) (units : list unitd),
+  wf_offsets units -> wf_layout units ->
+  exists S out,
+    reserved rf dbg req units = Ok S /\
+    convert_filtered_tol rf dbg req units = Ok out /\
+    (forall x, In x (map fst out) <-> In x S) /\
+    (strict_sorted (section_offsets units) -> map fst out = S).
+Proof. exact tolerant_emits_reserved_full. Qed.
+
+(* a required variable of unit 0 whose DW_AT_type is the unit-relative offset 121: past the end of unit 0,
+   and exactly where a typedef of unit 1 lives.  The strict conversion reports InvalidUnitRef; the tolerant
+   one emits the variable alone - the DIE of the other unit is NOT pulled in. *)
+Definition ex3_var : entry :=
+  {| e_off := 21; e_tag := 52; e_decl := false; e_sites := [ {| s_car := CAttrUnit; s_val := 121 |} ] |}.
+Definition ex3_typedef : entry := {| e_off := 21; e_tag := 22; e_decl := false; e_sites := [] |}.
+Definition ex3_u0 : unitd := {| u_off := 0; u_hdr := 11; u_len := 30; u_kids := [ Node ex3_var [] ] |}.
+Definition ex3_units : list unitd :=
+  [ ex3_u0;
+    {| u_off := 100; u_hdr := 11; u_len := 40; u_kids := [ Node ex3_typedef [] ] |} ].
+Example oob_ex :
+  in_bounds ex3_u0 121 = false /\
+  convert_filtered filter_refs true (fun x => x =? 21) ex3_units = Err CInvalidUnitRef /\
+  convert_filtered_tol filter_refs true (fun x => x =? 21) ex3_units = Ok [(21, 11)].
+Proof. repeat split; vm_compute; reflexivity. Qed.
 
 (* ------------------------------------------------------------------------------------------ *)
 (* non-vacuity *)
